@@ -84,24 +84,26 @@ NEEDS.update({
 # changes whose description showed that the generator could not reach them; strengthened before their first run
 PRE_STRENGTHENED = {"C06r2-A", "C06r2-B"}
 results = {}
-for f in sorted(glob.glob("/tmp/amut*.out.json")) + sorted(glob.glob("/tmp/bmut*.out.json")):
+for f in sorted(glob.glob("/tmp/amut*.out.json")) + sorted(glob.glob("/tmp/bmut*.out.json")) + sorted(glob.glob("/tmp/cmut*.out.json")):
     for r in json.load(open(f)):
         results.setdefault(r["name"], []).append({"campaign": os.path.basename(f), "caught_by_expected": r.get("caught_by_expected"), "fired": r.get("fired", {}), "cross_talk": r.get("cross_talk")})
 for name, needs in sorted(NEEDS.items()):
     pid, v = name.split("-")
     src = f"/tmp/wt/{pid}.out/{v}"
     pid = pid[:3]
-    if not os.path.isdir(src) and os.path.isdir(f"/verif/seeded/{name}"):
-        continue  # kept in an earlier round
-    if not os.path.isdir(src):
-        print("missing", src); continue
     dst = f"/verif/seeded/{name}"
-    shutil.rmtree(dst, ignore_errors=True)
-    os.makedirs(dst)
-    shutil.copy(f"{src}/patch.diff", f"{dst}/patch.diff")
-    shutil.copytree(f"{src}/demo", f"{dst}/demo")
-    if os.path.exists(f"{src}/notes.md"):
-        shutil.copy(f"{src}/notes.md", f"{dst}/notes.md")
+    if os.path.isdir(src):
+        shutil.rmtree(dst, ignore_errors=True)
+        os.makedirs(dst)
+        shutil.copy(f"{src}/patch.diff", f"{dst}/patch.diff")
+        shutil.copytree(f"{src}/demo", f"{dst}/demo")
+        if os.path.exists(f"{src}/notes.md"):
+            shutil.copy(f"{src}/notes.md", f"{dst}/notes.md")
+    elif not os.path.isdir(dst):
+        print("missing", src)
+        continue
+    elif name not in results:
+        continue  # kept earlier, nothing new to record
     rs = results.get(name, [])
     first = rs[0] if rs else None
     last = rs[-1] if rs else None
